@@ -1,7 +1,7 @@
 PROP = {
     "id": "C46",
     "theorem_modules": ["Verif.Properties.C46"],
-    "min_theorems": 18,
+    "min_theorems": 20,
     "required_theorems": [
         "Verif.Properties.C46.rlpDecodeString_no_panic",
         "Verif.Properties.C46.rlpDecodeList_no_panic",
@@ -18,6 +18,8 @@ PROP = {
         "Verif.Properties.C46.specDecodeList_iff",
         "Verif.Properties.C46.rlpDecodeString_eq_spec",
         "Verif.Properties.C46.rlpDecodeList_eq_spec",
+        "Verif.Properties.C46.deep_roundtrip",
+        "Verif.Properties.C46.deep_exact",
     ],
     "streams": [
         {"name": "rlp", "driver": "drv_rlp",
@@ -31,7 +33,8 @@ PROP = {
                   "other input is a returned user error (string_/list_accepts_canonical, _rejects_rest, "
                   "_noncanonical_is_user_error); the executable oracles of the driver are proved equivalent to the "
                   "declarative spec in full (specDecodeString_iff, isFrameB_iff, specDecodeList_iff incl. uniqueness of "
-                  "frame splitting) and equal to the model wrappers on every input (rlpDecode*_eq_spec). Tied to /repo "
+                  "frame splitting) and equal to the model wrappers on every input (rlpDecode*_eq_spec); deep version for nested items decoded "
+                  "recursively with the wrappers (deep_roundtrip, deep_exact). Tied to /repo "
                   "by the `rlp` correspondence stream: all byte strings of length <= 2 (<= 3 thorough), canonical "
                   "encodings of random nested items and mutations with extreme length prefixes, through "
                   "rlp.DecodeString/DecodeList and through RLP.decodeString/decodeList scripts in both engines; the "
